@@ -9,6 +9,7 @@ use crate::util;
 use proptest::prelude::*;
 use serde::{Deserialize, Serialize};
 use serde_json::{json, Value};
+use std::collections::BTreeMap;
 
 pub const CHECK: Check = Check { id: "C02", level: "fault_enumeration", flavours: &["scaled", "prod"], run, replay };
 
@@ -18,7 +19,7 @@ compressed-block / record edges, end marker, footers) plus 200 spread lengths; e
 and (for encrypted archives) unauthenticated mode into a layer-less archive that is re-read with the normal reader. \
 Oracle: no panic; n >= header length => repair returns Ok and its output opens; every output name is an original name; \
 every output content is a prefix of the original; files not reported unfinished are complete and byte-identical; status \
-EndOfOriginalArchiveData => all files present and complete. Non-trivial = header_len < n < len; distinct = (archive hash, n, mode)";
+EndOfOriginalArchiveData => all files present and complete. The same on archives encoded by the independent implementation of FORMAT.md (stage foreign-truncations). Non-trivial = header_len < n < len; distinct = (archive hash, n, mode)";
 
 #[derive(Clone, Debug, Serialize, Deserialize)]
 pub struct Case {
@@ -28,16 +29,20 @@ pub struct Case {
 }
 
 pub fn check_sound(a: &Arch, n: usize, auth: bool, r: &Result<RepairOut, RepairErr>) -> Result<(), String> {
+    check_sound_raw(&a.res.model, a.bytes.len(), a.header_len, a.res.layers, n, auth, r)
+}
+
+pub fn check_sound_raw(model: &BTreeMap<String, Vec<u8>>, total: usize, header_len: usize, layers: u8, n: usize, auth: bool, r: &Result<RepairOut, RepairErr>) -> Result<(), String> {
     let mode = if auth { "authenticated" } else { "unauthenticated" };
-    let ctx = |s: String| format!("cut at {n} of {} (header {} bytes, {}, {mode}): {s}", a.bytes.len(), a.header_len, prog::layers_name(a.res.layers));
+    let ctx = |s: String| format!("cut at {n} of {total} (header {header_len} bytes, {}, {mode}): {s}", prog::layers_name(layers));
     let out = match r {
         Ok(o) => o,
         Err(RepairErr::Panic(p)) => return Err(ctx(format!("repair panicked: {}", p.short()))),
-        Err(RepairErr::FromConfig(_)) if n < a.header_len => return Ok(()),
+        Err(RepairErr::FromConfig(_)) if n < header_len => return Ok(()),
         Err(e) => return Err(ctx(e.describe())),
     };
     for (name, f) in &out.files {
-        let Some(orig) = a.res.model.get(name) else {
+        let Some(orig) = model.get(name) else {
             return Err(ctx(format!("repaired archive lists {} which is not an original name", prog::short_name(name))));
         };
         if !util::is_prefix(&f.data, orig) {
@@ -49,7 +54,7 @@ pub fn check_sound(a: &Arch, n: usize, auth: bool, r: &Result<RepairOut, RepairE
         }
     }
     if out.end_reached {
-        for (name, orig) in &a.res.model {
+        for (name, orig) in model {
             match out.files.get(name) {
                 Some(f) if f.data == *orig => {}
                 _ => return Err(ctx(format!("status EndOfOriginalArchiveData but {} is missing or incomplete", prog::short_name(name)))),
@@ -105,6 +110,40 @@ fn oracle(c: &Case, st: &mut Stats) -> Result<(), String> {
     Ok(())
 }
 
+/// the same statement on archives the library did not write (independent encoder: free interleaving, empty content
+/// blocks, brotli parameters the writer never uses)
+fn foreign(c: &super::c06::BackCase, st: &mut Stats) -> Result<(), String> {
+    let (bytes, model, secrets, _) = super::c06::build_back(c);
+    let key = x25519_dalek::StaticSecret::from(secrets[c.reader as usize % secrets.len()]);
+    let layers = c.layers & 3;
+    let header_len = crate::refimpl::parse_header(&bytes).map_err(|e| format!("HARNESS: {e}"))?.len;
+    let mut bounds = vec![0, header_len, bytes.len()];
+    if layers & 1 != 0 {
+        let mut p = header_len;
+        while p < bytes.len() {
+            let e = (p + CHUNK_TAG).min(bytes.len());
+            bounds.push(e.saturating_sub(TAG));
+            bounds.push(e);
+            p = e;
+        }
+    }
+    let modes: &[bool] = if layers & 1 != 0 { &[true, false] } else { &[true] };
+    let ah = util::hash64(&bytes);
+    st.label(format!("foreign:layers={}", prog::layers_name(layers)));
+    for n in fault::truncations(bytes.len(), &bounds, 24, 200) {
+        for &auth in modes {
+            st.eval(1);
+            if n > header_len && n < bytes.len() {
+                st.nontrivial(ah ^ (n as u64).wrapping_mul(0x9E3779B97F4A7C15) ^ auth as u64);
+            }
+            let r = prog::repair(&bytes[..n], &[key.clone()], auth);
+            check_sound_raw(&model, bytes.len(), header_len, layers, n, auth, &r).map_err(|e| format!("archive encoded per FORMAT.md: {e}"))?;
+        }
+    }
+    st.sample(|| json!({"family": "foreign", "flavour": FLAVOUR, "layers": prog::layers_name(layers), "archive_len": bytes.len(), "file_block_lengths": c.files}));
+    Ok(())
+}
+
 fn params() -> ProgParams {
     ProgParams { max_files: 5, max_pieces: 4, min_files: 1, align_weight: 4, ..ProgParams::default() }
 }
@@ -135,9 +174,11 @@ fn pin(c: &Case) -> Case {
 
 fn run(ctx: &Ctx) -> Report {
     let mut rep = Report::new(RULE);
+    rep.assume(&prog::budget_note());
     rep.assume("the repaired archive is written without layers and read back by the normal reader (C01 covers that reader)");
     let n = if SCALED { ctx.n(100, 4_000) } else { ctx.n(12, 300) };
     explore(&mut rep, ctx, "truncations", n, strat, oracle);
+    explore(&mut rep, ctx, "foreign-truncations", if SCALED { ctx.n(60, 2_000) } else { ctx.n(8, 150) }, super::c06::back_case, foreign);
     if SCALED {
         rep.exhaustive_parts.push("every truncation length 0..=len of every generated archive, both modes".into());
     }
@@ -150,6 +191,10 @@ fn run(ctx: &Ctx) -> Report {
 }
 
 fn replay(_ctx: &Ctx, _stage: &str, case: &Value) -> Result<(), String> {
+    if _stage == "foreign-truncations" {
+        let c: super::c06::BackCase = serde_json::from_value(case.clone()).map_err(|e| format!("HARNESS: bad replay case: {e}"))?;
+        return foreign(&c, &mut Stats::default());
+    }
     let c: Case = serde_json::from_value(case.clone()).map_err(|e| format!("HARNESS: bad replay case: {e}"))?;
     oracle(&c, &mut Stats::default())
 }
